@@ -106,9 +106,10 @@ Example encrypt_rejections :
   (* GCM tag length < 4 / IV shorter than 8: refused by GCM(...) -> InvalidField *)
   do_encrypt toyE toyR CA_AES key16 (Some BCM_GCM) None (Some (repeat 9 12)) None (Some 3) [1] = RErr InvalidField /\
   do_encrypt toyE toyR CA_AES key16 (Some BCM_GCM) None (Some [1;2;3]) None (Some 16) [1] = RErr InvalidField /\
-  (* the two corners that still leave with a non-KMIP exception: RC4 named with CBC + padding, RC4 named with GCM *)
-  do_encrypt toyE toyR CA_RC4 key16 (Some BCM_CBC) (Some PM_PKCS5) None None None [1] = RCrash /\
-  do_encrypt toyE toyR CA_RC4 key16 (Some BCM_GCM) None None None (Some 16) [1] = RCrash.
+  (* RC4 named with a block cipher mode that cannot apply: InvalidField (fix 4ef300f; formerly AttributeError) *)
+  do_encrypt toyE toyR CA_RC4 key16 (Some BCM_CBC) (Some PM_PKCS5) None None None [1] = RErr InvalidField /\
+  do_encrypt toyE toyR CA_RC4 key16 (Some BCM_GCM) None None None (Some 16) [1] = RErr InvalidField /\
+  do_encrypt toyE toyR CA_RC4 key16 None None None None None [1;2] = ROk (mkOut [1;2] None None).
 Proof. vm_compute. repeat split. Qed.
 
 (* ---------------------------------------------------------------- gcm_plumbs_tag_and_aad *)
@@ -244,26 +245,32 @@ Theorem rejects_or_plans :
 Proof. repeat split; intros; apply res_total. Qed.
 Print Assumptions rejects_or_plans.
 
-(* STRONGER since the fix: commits f8d262f f56c8fe 832c54a fd6e5cc (the engine converts the library's refusals):
-   executing the plan does not end in a non-KMIP exception either.  For EVERY abstract cipher (no law assumed),
-   every algorithm but RC4, every key / mode / padding / IV / AAD / tag (length) / message, symmetric Encrypt and
-   Decrypt end in a result or in InvalidField / CryptographicFailure: wrong IV length, cipher/mode pairs OpenSSL
-   rejects, unusable key sizes, GCM tag length < 4, bad ciphertext length, invalid padding bytes, InvalidTag are
-   all KMIP errors now. *)
+(* STRONGER since the fix: commits f8d262f f56c8fe 832c54a fd6e5cc (the engine converts the library's refusals) and
+   4ef300f (RC4 named with CBC/ECB/GCM is InvalidField): executing the plan does not end in a non-KMIP exception
+   either.  For EVERY abstract cipher (no law assumed), EVERY algorithm, key, mode, padding, IV, AAD, tag (length)
+   and message, symmetric Encrypt and Decrypt end in a result or in InvalidField / CryptographicFailure: wrong IV
+   length, cipher/mode pairs OpenSSL rejects, unusable key sizes, GCM tag length < 4, bad ciphertext length, invalid
+   padding bytes, InvalidTag are all KMIP errors now.  None remain on the symmetric path. *)
 Theorem encrypt_decrypt_never_leave_with_a_non_kmip_exception :
   forall E Dp urandom a key mode padm iv aad,
-    a <> CA_RC4 ->
     (forall taglen msg, do_encrypt E urandom a key mode padm iv aad taglen msg <> RCrash) /\
     (forall tag ct, do_decrypt Dp urandom a key mode padm iv aad tag ct <> RCrash).
-Proof. intros. split; intros; [apply do_encrypt_no_crash|apply do_decrypt_no_crash]; auto. Qed.
+Proof. intros. split; intros; [apply do_encrypt_never_crashes|apply do_decrypt_never_crashes]. Qed.
 Print Assumptions encrypt_decrypt_never_leave_with_a_non_kmip_exception.
 
-(* what is left: only a cipher class without block size, or used without a mode (RC4 named together with CBC/ECB +
-   padding, or with GCM) - `encrypt_rejections` above shows both instances; they stay C13's concern *)
-Theorem remaining_non_kmip_exceptions_need_rc4 :
-  forall dec p n, lib_sym_stage dec p n = LCrash -> p_block p <= 0 \/ mode_val (p_mode p) = -1.
-Proof. exact stage_crash_only_without_block_or_mode. Qed.
-Print Assumptions remaining_non_kmip_exceptions_need_rc4.
+(* the same at plan level: no plan accepted by the engine's guards reaches a stage that raises a non-KMIP exception *)
+Theorem no_non_kmip_exception_on_the_symmetric_path :
+  forall dec a key mode padm iv aad taglen tag sp n,
+    sym_plan_of dec a key mode padm iv aad taglen tag = Ok sp -> lib_sym_stage dec sp n <> LCrash.
+Proof. exact plan_stage_never_crashes. Qed.
+Print Assumptions no_non_kmip_exception_on_the_symmetric_path.
+
+Theorem rc4_with_a_block_mode_is_refused :
+  forall dec key mode padm iv aad taglen tag,
+    (oeqZ mode BCM_CBC || oeqZ mode BCM_ECB || oeqZ mode BCM_GCM) = true ->
+    exists e, sym_plan_of dec CA_RC4 key mode padm iv aad taglen tag = Err e.
+Proof. exact rc4_rejects_block_modes. Qed.
+Print Assumptions rc4_with_a_block_mode_is_refused.
 
 (* authenticated decryption: a refusal by the primitive (InvalidTag after any change to ciphertext, tag or AAD)
    surfaces as CryptographicFailure *)
